@@ -8,7 +8,26 @@
 (* removes the first match; every client call works on a clone and commits (Index + 1, snapshot to the kv    *)
 (* store) or discards it.  Apply(ds, g, op) is the transition function; it is written in the order of the    *)
 (* code's checks because the error class a caller sees is part of the observation.                           *)
-(* Contract layer: Inv_* below.                                                                               *)
+(* Contract layer: OutcomeOK (outcome of one operation) and the invariants Inv_* below.                       *)
+(*                                                                                                            *)
+(* WHAT THE CODE DOES where the contract wants something else (quirk constants, TRUE = as the code):          *)
+(*  - DropRetentionPolicy of the default policy removes the policy and KEEPS DefaultRetentionPolicy: the      *)
+(*    default then names no policy (a lookup of the default finds nothing), and a policy created later under *)
+(*    that name is the default again without makeDefault.                      (DropKeepsDefault, XM1)        *)
+(*  - UpdateRetentionPolicy(rename of the default policy, makeDefault = FALSE) keeps the OLD name as default. *)
+(*                                                                             (RenameKeepsDefault, XM2)      *)
+(*  - shardGroupDuration puts exactly 180d into the 7d class (documented: <= 6 months -> 1d).                 *)
+(*                                                                             (HalfYearIsLong, XM3)          *)
+(*  - UpdateRetentionPolicy does not validate the new name: the empty name is stored, and the collision test  *)
+(*    for it looks at the DEFAULT policy (DatabaseInfo.RetentionPolicy of the empty name).                    *)
+(*                                                                             (RenameAcceptsEmpty, XM4)      *)
+(* The model checking configurations set them FALSE and check the contract; lead configurations switch one  *)
+(* on and must violate it; generation / simulation configurations set all TRUE and are replayed on the code.  *)
+(* Further facts of the code modelled as they are (no contract issue): CreateDatabase of an existing database *)
+(* returns it without committing. DropDatabase / DropRetentionPolicy of a missing object succeed AND commit.   *)
+(* CreateRetentionPolicy identical to an existing policy succeeds (commits) unless makeDefault would change    *)
+(* the default (conflict). An empty policy name in a RetentionPolicySpec means autogen. UpdateRetentionPolicy  *)
+(* compares the new retention with the RAW new shard group duration, then stores the normalised one.          *)
 (*                                                                                                            *)
 (* DURATIONS are points on an ordered scale which the replay driver maps to real time.Duration values        *)
 (* (interval points get seed-dependent values inside the interval):                                          *)
